@@ -118,11 +118,23 @@ fn emit_cases(out: &mut Out, oa: &[&Value], ob: &[&Value], sync: bool, limit: us
     if sync {
         let run = out.n + 1;
         let mut sim = MultiNodeSimulation::new_without_anti_entropy(2, 7);
+        // every third sync case: replica 1 has been up for a long time (its stamps are 2^21 and more ahead), replica 2 is young;
+        // the old node's state is what it holds, not something it receives
+        let far = run % 3 == 0;
         for (node, order) in [(0usize, oa), (1usize, ob)] {
             sim.nodes[node].anti_entropy.config.max_keys_per_sync = limit;
             sim.nodes[node].anti_entropy.config.merkle_tree_depth = depth;
             for u in order.iter() {
-                sim.nodes[node].replica_state.apply_remote_delta(mk_delta(u));
+                if far && node == 0 {
+                    let mut u2 = (*u).clone();
+                    u2["ts"] = json!(u["ts"].as_u64().unwrap_or(0) + (1u64 << 21));
+                    let d = mk_delta(&u2);
+                    let keys = &mut sim.nodes[node].replica_state.replicated_keys;
+                    let v = match keys.get(&d.key) { Some(c) => c.merge(&d.value), None => d.value };
+                    keys.insert(d.key, v);
+                } else {
+                    sim.nodes[node].replica_state.apply_remote_delta(mk_delta(u));
+                }
             }
         }
         let bound = 2 * ((nkeys + limit - 1) / limit) + 2;
